@@ -883,11 +883,15 @@ class UBCalculation:
         if len(m.shape) != 2 or m.shape[0] != 3 or m.shape[1] != 3:
             raise TypeError("set_ub expects (3, 3) NumPy matrix.")
 
-        self.UB = m
-        if self.crystal is not None:
+        if self.crystal is None:
+            self.UB = m
+        else:
+            # Work out U before assigning anything, so that a matrix that cannot be
+            # reduced against the lattice leaves both U and UB as they were.
             U_matrix = m @ inv(self.crystal.B)
-            self.U = U_matrix / np.cbrt(det(U_matrix))
-            self.UB = self.U @ self.crystal.B
+            new_U = U_matrix / np.cbrt(det(U_matrix))
+            self.U = new_U
+            self.UB = new_U @ self.crystal.B
 
     def _calc_ub_from_two_references(self, ref1, ref2):
         h1 = np.array([[ref1.h, ref1.k, ref1.l]]).T  # row->column
